@@ -5,6 +5,7 @@ package main
 
 import (
 	"fmt"
+	"go/token"
 	"go/types"
 	"sort"
 	"strings"
@@ -157,10 +158,12 @@ func (c *FnCtx) calleeMayWriteMap(call *ssa.CallCommon, mapKey string, depth int
 
 // loopFx carries what is needed to compute the heap effects of a loop body.
 type loopFx struct {
-	c     *FnCtx
-	frame *Frame
-	l     *Loop
-	st    *State
+	c         *FnCtx
+	frame     *Frame
+	l         *Loop
+	st        *State
+	stored    map[string]bool
+	storedAll bool
 }
 
 // stable resolves an SSA value (through parameter substitution of inlined callees) to a value
@@ -183,6 +186,25 @@ func (fx *loopFx) stable(v ssa.Value, subst map[ssa.Value]ssa.Value) (Val, bool)
 		}
 	case *ssa.Global, *ssa.Const:
 		return fx.c.val(fx.st, v), true
+	case *ssa.UnOp:
+		// a load of a field that the loop never stores to, from a stable object, is stable
+		if fa, ok := x.X.(*ssa.FieldAddr); ok && x.Op == token.MUL {
+			stt := fa.X.Type().Underlying().(*types.Pointer).Elem()
+			fname := stt.Underlying().(*types.Struct).Field(fa.Field).Name()
+			if !fx.storedAll && !fx.stored[typeName(stt)+"|"+fname] && !fx.stored["*|"+fname] {
+				if obj, ok := fx.stable(fa.X, subst); ok {
+					if base := fx.c.addrOfPointer(obj); base != nil {
+						ft := stt.Underlying().(*types.Struct).Field(fa.Field).Type()
+						a := &Addr{Space: base.Space, Key: base.Key, Idx: base.Idx, Path: joinPath(base.Path, fname), T: ft}
+						return fx.c.loadAt(fx.st.heap, a), true
+					}
+				}
+			}
+		}
+		in := ssa.Instruction(x)
+		if in.Parent() != fx.frame.fn || in.Block() == nil || fx.l.Blocks[in.Block()] {
+			return Val{}, false
+		}
 	default:
 		in, ok := v.(ssa.Instruction)
 		if !ok || in.Parent() != fx.frame.fn || in.Block() == nil || fx.l.Blocks[in.Block()] {
@@ -191,6 +213,76 @@ func (fx *loopFx) stable(v ssa.Value, subst map[ssa.Value]ssa.Value) (Val, bool)
 	}
 	val, ok := fx.st.env[v]
 	return val, ok
+}
+
+// collectStored records which struct fields the blocks (and inlinable callees) may store to.
+func (fx *loopFx) collectStored(blocks []*ssa.BasicBlock, depth int) {
+	c := fx.c
+	for _, b := range blocks {
+		for _, in := range b.Instrs {
+			switch x := in.(type) {
+			case *ssa.Store:
+				v := x.Addr
+				for {
+					fa, ok := v.(*ssa.FieldAddr)
+					if !ok {
+						break
+					}
+					stt := fa.X.Type().Underlying().(*types.Pointer).Elem()
+					fx.stored[typeName(stt)+"|"+stt.Underlying().(*types.Struct).Field(fa.Field).Name()] = true
+					v = fa.X
+				}
+			case *ssa.Call, *ssa.Defer:
+				var call *ssa.CallCommon
+				if cc, ok := x.(*ssa.Call); ok {
+					call = &cc.Call
+				} else {
+					call = &x.(*ssa.Defer).Call
+				}
+				callee := call.StaticCallee()
+				key := ""
+				if call.IsInvoke() {
+					if n, ok := call.Value.Type().(*types.Named); ok && n.Obj().Pkg() != nil {
+						key = n.Obj().Pkg().Path() + "." + n.Obj().Name() + "." + call.Method.Name()
+					}
+				} else if callee != nil {
+					key = contractKeyForFunc(callee)
+				}
+				if c.isLockCall(key) {
+					// guarded fields change at Lock
+					if len(call.Args) > 0 {
+						if fa, ok := call.Args[0].(*ssa.FieldAddr); ok {
+							stt := fa.X.Type().Underlying().(*types.Pointer).Elem()
+							mutex := stt.Underlying().(*types.Struct).Field(fa.Field).Name()
+							if li := c.findLockInv(typeName(stt), mutex); li != nil {
+								for _, g := range li.Guards {
+									if !strings.HasPrefix(g, "contents ") && !strings.HasPrefix(g, "type ") {
+										fx.stored[typeName(stt)+"|"+g] = true
+									}
+								}
+							}
+						}
+					}
+					continue
+				}
+				fc := c.eng.cs.Funcs[key]
+				if fc != nil && !(fc.Inline && callee != nil) {
+					for _, m := range fc.Modifies {
+						if m.Kind == "field" {
+							fx.stored["*|"+m.Name] = true
+						}
+						if m.Kind == "all" {
+							fx.storedAll = true
+						}
+					}
+					continue
+				}
+				if callee != nil && callee.Blocks != nil && depth < 3 && (c.canInline(callee) || (fc != nil && fc.Inline)) {
+					fx.collectStored(callee.Blocks, depth+1)
+				}
+			}
+		}
+	}
 }
 
 // havocLoop havocs everything the loop body may modify.
@@ -206,7 +298,8 @@ func (c *FnCtx) havocLoop(frame *Frame, l *Loop, st *State) {
 		st.env[phi] = v
 	}
 	// 2. heap effects
-	fx := &loopFx{c: c, frame: frame, l: l, st: st}
+	fx := &loopFx{c: c, frame: frame, l: l, st: st, stored: map[string]bool{}}
+	fx.collectStored(sortedBlocks(l.Blocks), 0)
 	// iterators advanced in the loop
 	for _, b := range sortedBlocks(l.Blocks) {
 		for _, in := range b.Instrs {
